@@ -39,7 +39,7 @@ func (f *fz) fail(mon, msg string) { f.t.Fail("C12", mon, msg) }
 func (f *fz) after(what string, c *sigdrv.Client, res sigdrv.Result, closedBefore []bool) {
 	f.t.Checked("C12.signalling_no_panic")
 	if res.Panic != nil {
-		f.fail("signalling_no_panic", fmt.Sprintf("%s by client %s: recovered panic (process exit in the server): %v", what, c.ID, res.Panic))
+		f.fail("signalling_no_panic", fmt.Sprintf("recovered panic (process exit in the server): %v; client %s, %s", res.Panic, c.ID, what))
 	}
 	f.t.Checked("C12.signalling_isolated")
 	for i, x := range f.cs {
